@@ -159,7 +159,9 @@ def run_case(case):
             fv = {fc: (lambda X, t: 0.5) for fc in range(2 * d)}
         else:
             fv = {fc: (lambda X, t: f_np(0, d, kind, X, t)) for fc in range(2 * d)}
-        kw = dict(omega_boundary_fun=f, omega_boundary_condition=cond if cond == "dirichlet" else "von neumann", omega_boundary_dim=sel_of(sel))
+        # the documented spellings of the condition names (case-insensitive)
+        spell = {"dirichlet": ["dirichlet", "Dirichlet"], "neumann": ["von neumann", "vonneumann", "Von Neumann"]}[cond]
+        kw = dict(omega_boundary_fun=f, omega_boundary_condition=spell[(case["bb"] + case["nt"] + case["n_out"]) % len(spell)], omega_boundary_dim=sel_of(sel))
         site += f"/{cond}"
     else:
         n_out = 2
